@@ -60,7 +60,7 @@ theorem udp_identity_ok (conn tx : Nat) (hc : conn < 256 ^ 8) (htx : tx < 256 ^ 
 `peer_id` come first and un-escape to the torrent's info-hash and **the same 20 peer-id bytes**;
 port and counters are the torrent's; `key` is the hex of the last four peer-id bytes and decodes
 back to them; `event` is present exactly for started/completed/stopped. -/
-theorem http_query_fields (t : Torrent) (hwf : t.wf) (event : Nat) (numWant : Int) (tid : String) :
+theorem http_query_fields (t : Torrent) (hwf : t.wf) (event : Nat) (numWant : Int) (tid : Bytes) :
     let q := httpQuery t event numWant tid
     (q.take 2).map (·.1) = ["info_hash", "peer_id"] ∧
     lookup "info_hash" q = some (.esc t.infoHash) ∧ percentUnescape (percentEscape t.infoHash) = some t.infoHash ∧
@@ -78,14 +78,14 @@ theorem http_query_fields (t : Torrent) (hwf : t.wf) (event : Nat) (numWant : In
     intro x hx; exact hall x (List.mem_of_mem_drop hx)
   refine ⟨rfl, rfl, percentUnescape_escape _ hib, rfl, percentUnescape_escape _ hpb, rfl, rfl, rfl, rfl, rfl,
     ?_, ?_, hexDec_hexEnc _ hkb⟩
-  · by_cases he : event = 0 <;> by_cases ht : tid = "" <;> simp [httpQuery, lookup, he, ht]
-  · by_cases he : event = 0 <;> by_cases ht : tid = "" <;> simp [httpQuery, lookup, he, ht, keyBytes]
+  · by_cases he : event = 0 <;> by_cases ht : tid = [] <;> simp [httpQuery, lookup, he, ht]
+  · by_cases he : event = 0 <;> by_cases ht : tid = [] <;> simp [httpQuery, lookup, he, ht, keyBytes]
 
 /-- Non-vacuity: `sampleTorrent` is well-formed and its peer id does not end in zero bytes. -/
 example : sampleTorrent.wf := by decide
 example : (decodeAnnounce (encodeAnnounce 7 9 sampleTorrent 2 200 [0x2f, 0x61])).map (·.1.peerID)
     = some sampleTorrent.peerID := by decide
-example : lookup "key" (httpQuery sampleTorrent 2 200 "") = some (.hexs [0x51, 0x52, 0x53, 0x54]) := by decide
+example : lookup "key" (httpQuery sampleTorrent 2 200 []) = some (.hexs [0x51, 0x52, 0x53, 0x54]) := by decide
 
 /-- The historical defect (#10): the pre-fix builder wrote the zero key *into* the peer id, so the
 tracker saw a peer id whose last four bytes were zero (and key 0) — the identity oracle rejects it. -/
